@@ -171,6 +171,8 @@ def run(ctx):
             stress = ["X bq 3 2 %d 4" % (3000 if not thorough else 60000), "X bq 1 1 %d 1" % (3000 if not thorough else 60000),
                       "X bq 4 4 %d 2" % (2000 if not thorough else 30000), "X ring %d 8" % (300000 if not thorough else 5000000),
                       "X ring %d 1" % (50000 if not thorough else 1000000), "X ring %d 2" % (100000 if not thorough else 2000000)]
+            # wide (128-byte) items and batch pops as large as the ring, fixed-capacity and dynamic variant
+            stress += ["X %s %d %d" % (k, (60000 if not thorough else 1500000), c) for k in ("sring", "dring") for c in (8, 64, 2, 1)]
             wake = ["W put", "W take"] * (3 if not thorough else 30)
             # several blocked callers released one by one through every put / take entry point: each state change must
             # wake one of them (the model issues one notify per successful put / take)
@@ -226,6 +228,7 @@ def run(ctx):
             if tsan_exe:
                 tl = ["X ring %d 8" % (200000 if not thorough else 3000000), "X ring %d 1" % (50000 if not thorough else 500000),
                       "X bq 3 2 %d 4" % (2000 if not thorough else 30000)]
+                tl += ["X %s %d %d" % (k, (30000 if not thorough else 500000), c) for k in ("sring", "dring") for c in (8, 2)]
                 import os
                 cf = os.path.join(ctx["workdir"], "c10tsan.cases")
                 open(cf, "w").write("\n".join(tl) + "\n")
@@ -241,7 +244,7 @@ def run(ctx):
                         "static and dynamic variant must agree) and BlockingQueue (capacity 1/2/3/5; non-blocking and 0 ms timed put/take, "
                         "close, size) against the extracted models; DynamicRingBuffer with resize to 0..16 against a Python FIFO; "
                         "concurrent stress with sequence-numbered items (3x2, 1x1, 4x4 threads on BlockingQueue; SPSC ring with "
-                        "capacity 8/1/2, single and batch operations) in ASan+UBSan and ThreadSanitizer builds; close() injected between "
+                        "capacity 8/1/2, single and batch operations; the same with 128-byte items and ring-sized batch pops on the fixed-capacity RingBuffer and on DynamicRingBuffer, capacity 1/2/8/64) in ASan+UBSan and ThreadSanitizer builds; close() injected between "
                         "a blocked caller's predicate evaluation and its sleep, for put and take.",
                 "samples": lines[:2] + lines[n:n + 1],
                 "tsan_reports": tsan_reports,
